@@ -48,6 +48,53 @@ CLAIMED.update({
     ),
 })
 
+CLAIMED.update({
+    "C02": dict(
+        category="proof", design_ref="DESIGN.md §5 C02",
+        text="Sequential kernel + ownership: (i) on the real status table every path between two claims passes a status that releases ownership and only the owner "
+             "(or a recovery status) moves an owned invocation (finite lemma + the C01 equivalence proof); (ii) get_additional_invocations_to_run / "
+             "get_blocking_invocations_to_run are proved to yield an id only after that activation's own PENDING request returned normally, and every yielded "
+             "invocation is PENDING under that runner; (iii) lock/transaction ownership obligations: the Mem read-validate-write happens under the lock selected "
+             "for that id, the SQLite orchestrator transition and broker retrieve run inside BEGIN IMMEDIATE on one connection. No interleaving is explored by "
+             "the proof; forced two-thread schedules are a bounded stand-in.",
+        technique="contract-based deductive verification (sequential contracts + lock/transaction ownership obligations on the real ASTs) + forced-schedule bounded stand-in",
+    ),
+    "C03": dict(
+        category="other", design_ref="DESIGN.md §5 C03",
+        text="Safety kernel only: the no-stranding predicate J (final, or available and queued, or PENDING/RUNNING with an owner) is proved to hold for every "
+             "registered id at every exit of registration (single and batch), claiming, reroute and retry, for all states satisfying J at entry. The poll "
+             "failing on a blocked RETRY/REROUTED invocation strands a message and is listed as a known finding. Liveness is outside this technique.",
+        technique="contract-based deductive verification of an invariant at function exits (AST->z3 VCs over abstract component contracts)",
+    ),
+    "C05": dict(
+        category="proof", design_ref="DESIGN.md §5 C05",
+        text="'SUCCESS => result stored, FAILED => exception stored' is proved as a step invariant between every two effects of set_invocation_result / "
+             "set_invocation_exception and at all their exits (normal, refused, unknown id, storage fault), i.e. exactly the states a concurrent reader can see.",
+        technique="contract-based deductive verification: step invariant between every two effects of the real glue functions",
+    ),
+    "C06": dict(
+        category="other", design_ref="DESIGN.md §5 C06",
+        text="Sequential kernel: authorised <=> no same-key invocation in the given statuses; arguments indexed on every registering path incl. the batch path; "
+             "blocked invocations end CONCURRENCY_CONTROLLED(_FINAL) per option. Two genuine defects are listed as known findings (poll raises for blocked "
+             "RETRY/REROUTED invocations; check-then-act window between the authorisation check and the RUNNING request), each replayed on the real code.",
+        technique="contract-based deductive verification of the real glue (AST->z3 VCs over abstract component contracts) + ownership obligation + replays on the real code",
+    ),
+    "C07": dict(
+        category="proof", design_ref="DESIGN.md §5 C07",
+        text="route_call is proved, for every registration mode, key filter and raise option: no REGISTERED match or DISABLED => exactly one new REGISTERED, queued "
+             "invocation and nothing else changes; a REGISTERED match => one of the matches is returned and nothing changes; raise option + different call identity "
+             "=> rejected, nothing changes. Both real backends are enumerated over submission/claim histories (bounded).",
+        technique="contract-based deductive verification of route_call and registration glue + bounded submission histories on both backends",
+    ),
+    "C10": dict(
+        category="proof", design_ref="DESIGN.md §5 C10",
+        text="Proved: a successful transition is followed by exactly one history request with the returned record and the same id, a refused one by none; "
+             "registration records one entry per new invocation; add_history starts exactly one writer thread for (id, record, runner) and registers it for "
+             "flushing before starting it; the Mem store appends exactly one entry per id. Writer lateness is not explored; SQLite history is bounded.",
+        technique="contract-based deductive verification (AST->z3 VCs; thread starts as trace obligations) + bounded lifecycle histories on both backends",
+    ),
+})
+
 NOT_YET = {}
 
 
